@@ -76,8 +76,14 @@ def statements(cx):
                 if txt is None:
                     raise AnalysisError(f'{cx.qual}: SQL text of {ast.unparse(c)[:60]} is not a constant')
                 params = None
-                if len(c.args) > 1 and isinstance(c.args[1], (ast.Tuple, ast.List)):
-                    params = list(c.args[1].elts)
+                pa = c.args[1] if len(c.args) > 1 else None
+                if isinstance(pa, ast.Name):
+                    # the parameter tuple held in a local: its single binding
+                    ss = cx.sources(n, pa)
+                    if len(ss) == 1 and ss[0].kind == 'expr' and isinstance(ss[0].expr, (ast.Tuple, ast.List)):
+                        pa = ss[0].expr
+                if isinstance(pa, (ast.Tuple, ast.List)):
+                    params = list(pa.elts)
                 out.append(Stmt(txt, c, n, params))
     return out
 
